@@ -27,7 +27,7 @@ def report(rep, signature, what, replay):
         rep.violation(signature, what, replay)
 
 
-GENERATED = ["VteTable", "AnsiSgr", "RawLine"]
+GENERATED = ["VteTable", "AnsiSgr", "RawLine", "MapStyles"]
 ESC = "\x1b"
 
 # ------------------------------------------------------------------ independent SGR interpreter
@@ -811,13 +811,24 @@ def binary_case_moved(ctx, rep, case):
     other = "+" if kind == "-" else "-"
     lines = ["diff --git a/m.txt b/m.txt", "index 1..2 100644", "--- a/m.txt", "+++ b/m.txt", "@@ -1,3 +1,3 @@",
              " ctx", ml, sgr("31" if other == "-" else "32") + other + "unrelated" + sgr(""), " ctx2"]
-    args = ["--no-gitconfig"] + mode + (["--map-styles", MAP, "--true-color", case.get("depth", "always")] if case.get("map") else [])
+    if case.get("mapkey"):
+        mapping = f"{case['mapkey']} => {case['mapval']}"
+    else:
+        mapping = MAP
+    args = ["--no-gitconfig"] + mode + (["--map-styles", mapping, "--true-color", case.get("depth", "always")] if case.get("map") else [])
     rc, out, err = ctx.run_delta(args, enc_lines(lines))
     want = apply_sgr(Rend(), parse_params(params))
     if case.get("map"):
         # the two mapped styles (equality key: bold + magenta/cyan, named or palette 5/6)
         deep = case.get("depth", "always") == "always"
-        if want.key() == ((True,) + (False,) * 7, ("p", 5), None):
+        if case.get("mapkey"):
+            if case.get("hit", True):
+                want = Rend()
+                if case["mapval"] == "bold yellow":
+                    want.a[0] = True; want.fg = ("p", 3)
+                else:   # blue "#005f00"
+                    want.fg = ("p", 4); want.bg = ("r", 0, 0x5f, 0) if deep else ("p", 22)
+        elif want.key() == ((True,) + (False,) * 7, ("p", 5), None):
             want = Rend(); want.fg = ("p", 1); want.bg = ("r", 0x5f, 0, 0) if deep else ("p", 52)
         elif want.key() == ((True,) + (False,) * 7, ("p", 6), None):
             want = Rend(); want.fg = ("p", 4); want.bg = ("r", 0, 0x5f, 0) if deep else ("p", 22)
@@ -836,7 +847,7 @@ def binary_case_moved(ctx, rep, case):
             got = {r for _, r in cells[j:j + len(body)]}
             break
     if got != {want.key()}:
-        report(rep, "moved-colours:" + ("mapped" if case.get("map") else re.sub(r"\d+", "N", params)[:24]),
+        report(rep, "moved-colours:" + (("mapped:" + case.get("depth", "always")) if case.get("map") else re.sub(r"\d+", "N", params)[:24]),
                       "a moved-line colour is not shown with exactly the input rendition",
                       dict(kind="binary", sub="moved", want=want.enc(), got=repr(got), case=case))
 
@@ -933,6 +944,20 @@ def binary_cases(ctx):
         for kind in "-+":
             for depth in ("always", "never"):
                 cases.append(("moved", dict(params=p, kind=kind, form="per-line", mode=[], map=True, depth=depth)))
+    # --map-styles keys in 8 / 16 / 256 / 24-bit form x colour depth x the moved line's colour in the same forms:
+    # the key is compared with the style read from the input line, so it must match at either depth
+    pairs = [("bold purple", "1;35", True), ("bold purple", "1;38;5;5", True), ("purple", "35", True), ("brightred", "91", True),
+             ("brightred", "38;5;9", True), ("bold 201", "1;38;5;201", True), ("201", "38;5;201", True),
+             ("#ff0080", "38;2;255;0;128", True), ("bold #ff0080", "1;38;2;255;0;128", True), ("#5f0000", "38;2;95;0;0", True),
+             ("normal #102030", "48;2;16;32;48", True), ("ul #ff0080 #000080", "4;38;2;255;0;128;48;2;0;0;128", True),
+             # near misses: not mapped, the input colour is shown as it is
+             ("#ff0080", "38;2;255;0;129", False), ("201", "38;5;200", False), ("#5f0000", "38;5;52", False), ("bold purple", "35", False)]
+    for key, params, hit in pairs:
+        for depth in ("always", "never"):
+            for kind in "-+":
+                cases.append(("moved", dict(params=params, kind=kind, form=rng.choice(["per-line", "per-marker"]),
+                                            mode=rng.choice([[], ["--line-numbers"]]), map=True, depth=depth, mapkey=key,
+                                            mapval=rng.choice(["bold yellow", 'blue "#005f00"']), hit=hit)))
     # the decision of maybe_raw_line under every option combination
     for p in ["1;35", "1;36", "7", "38;5;208", "1;31", "32;4"] + [moved_params(rng) for _ in range(ctx.n(6, 200))]:
         for kind in "-+":
